@@ -339,7 +339,7 @@ theorem iterStep_fst (c : Cfg K V) (acc : St K V × List (K × Option V)) (k : K
     · next h => right; rw [h]
 
 theorem iter_eq_foldl (c : Cfg K V) (s : St K V) (lo hi : Option K) (asc : Bool) :
-    s.iter c lo hi asc = (s.iterKeys c lo hi asc).foldl (iterStep c) (s, []) := rfl
+    s.iter c lo hi asc = (s.tree.rangeKeys c lo hi asc).foldl (iterStep c) (s, []) := rfl
 
 theorem iter_foldl_unmetered (c : Cfg K V) (s : St K V) (hm : s.metered = false) (ks : List K)
     (acc : List (K × Option V)) :
@@ -361,7 +361,7 @@ theorem iter_foldl_unmetered (c : Cfg K V) (s : St K V) (hm : s.metered = false)
 theorem iter_unmetered (c : Cfg K V) (s : St K V) (hm : s.metered = false) (lo hi : Option K)
     (asc : Bool) :
     s.iter c lo hi asc =
-      (s, ((s.iterKeys c lo hi asc).filter (fun k => !s.deleted c k)).map
+      (s, ((s.tree.rangeKeys c lo hi asc).filter (fun k => !s.deleted c k)).map
             (fun k => (k, view c s k))) := by
   rw [iter_eq_foldl, iter_foldl_unmetered c s hm]
   simp
@@ -1169,26 +1169,26 @@ theorem listed_append (c : Cfg K V) (s : St K V) (a b : List K) :
   simp [listed]
 
 theorem iter_cutoff (c : Cfg K V) (s : St K V) (lo hi : Option K) (asc : Bool) :
-    ∃ n, n ≤ (s.iterKeys c lo hi asc).length ∧
+    ∃ n, n ≤ (s.tree.rangeKeys c lo hi asc).length ∧
       s.iter c lo hi asc =
-        (s.addGas (iterCost c s ((s.iterKeys c lo hi asc).take n)),
-         listed c s ((s.iterKeys c lo hi asc).take n) ++
-           listedSess c s ((s.iterKeys c lo hi asc).drop n)) ∧
-      (n < (s.iterKeys c lo hi asc).length →
+        (s.addGas (iterCost c s ((s.tree.rangeKeys c lo hi asc).take n)),
+         listed c s ((s.tree.rangeKeys c lo hi asc).take n) ++
+           listedSess c s ((s.tree.rangeKeys c lo hi asc).drop n)) ∧
+      (n < (s.tree.rangeKeys c lo hi asc).length →
         s.metered = true ∧
-        s.gas.limit ≤ s.gas.consumed + iterCost c s ((s.iterKeys c lo hi asc).take n)) := by
-  obtain ⟨n, hn, he, hl⟩ := iter_foldl_cutoff c (s.iterKeys c lo hi asc) s []
+        s.gas.limit ≤ s.gas.consumed + iterCost c s ((s.tree.rangeKeys c lo hi asc).take n)) := by
+  obtain ⟨n, hn, he, hl⟩ := iter_foldl_cutoff c (s.tree.rangeKeys c lo hi asc) s []
   refine ⟨n, hn, ?_, hl⟩
   rw [iter_eq_foldl, he]
   simp
 
 theorem iter_sublist (c : Cfg K V) (s : St K V) (lo hi : Option K) (asc : Bool) :
-    (s.iter c lo hi asc).2.Sublist (listed c s (s.iterKeys c lo hi asc)) := by
+    (s.iter c lo hi asc).2.Sublist (listed c s (s.tree.rangeKeys c lo hi asc)) := by
   obtain ⟨n, _, he, _⟩ := iter_cutoff c s lo hi asc
   rw [he]
-  have : listed c s (s.iterKeys c lo hi asc) =
-      listed c s ((s.iterKeys c lo hi asc).take n) ++
-        listed c s ((s.iterKeys c lo hi asc).drop n) := by
+  have : listed c s (s.tree.rangeKeys c lo hi asc) =
+      listed c s ((s.tree.rangeKeys c lo hi asc).take n) ++
+        listed c s ((s.tree.rangeKeys c lo hi asc).drop n) := by
     rw [← listed_append, List.take_append_drop]
   rw [this]
   exact List.Sublist.append (List.Sublist.refl _) (listedSess_sublist c s _)
@@ -1207,18 +1207,18 @@ theorem mem_listedSess (c : Cfg K V) (s : St K V) (ks : List K) (k : K) (hk : k 
 /-- a key of the range is missing from the listing only if it is deleted in an overlay or its
     read was refused: the meter is on, ran out by the end, and the session does not hold the key -/
 theorem iter_missing (c : Cfg K V) (s : St K V) (lo hi : Option K) (asc : Bool) (k : K)
-    (hk : k ∈ s.iterKeys c lo hi asc) (hd : s.deleted c k = false)
+    (hk : k ∈ s.tree.rangeKeys c lo hi asc) (hd : s.deleted c k = false)
     (hmiss : (k, view c s k) ∉ (s.iter c lo hi asc).2) :
     s.metered = true ∧ s.gas.limit ≤ (s.iter c lo hi asc).1.gas.consumed ∧
     s.sess.bind (alookup k) = none := by
   obtain ⟨n, _, he, hl⟩ := iter_cutoff c s lo hi asc
   rw [he] at hmiss ⊢
   simp only [List.mem_append, not_or] at hmiss
-  rw [← List.take_append_drop n (s.iterKeys c lo hi asc), List.mem_append] at hk
+  rw [← List.take_append_drop n (s.tree.rangeKeys c lo hi asc), List.mem_append] at hk
   rcases hk with hk | hk
   · exact absurd (mem_listed c s _ k hk hd) hmiss.1
-  · have hlt : n < (s.iterKeys c lo hi asc).length := by
-      by_cases h : n < (s.iterKeys c lo hi asc).length
+  · have hlt : n < (s.tree.rangeKeys c lo hi asc).length := by
+      by_cases h : n < (s.tree.rangeKeys c lo hi asc).length
       · exact h
       · rw [List.drop_eq_nil_of_le (by omega)] at hk
         cases hk
@@ -1357,63 +1357,6 @@ theorem run_session_writes_gen (c : Cfg K V) (s : St K V)
       rw [h']
       simp [St.addGas, Int.add_assoc]
 
-/-! ### insertion sort (moved here from OLP/Shell/LemmasB.lean: C01 and C09 both use it) -/
-
-theorem insertKey_perm (lt : K → K → Bool) (k : K) (l : List K) :
-    (insertKey lt k l).Perm (k :: l) := by
-  induction l with
-  | nil => exact List.Perm.refl _
-  | cons h t ih =>
-    unfold insertKey
-    split
-    · exact List.Perm.refl _
-    · exact (List.Perm.cons h ih).trans (List.Perm.swap k h t)
-
-theorem sortKeys_perm (lt : K → K → Bool) (l : List K) : (sortKeys lt l).Perm l := by
-  induction l with
-  | nil => exact List.Perm.refl _
-  | cons h t ih =>
-    show (insertKey lt h (sortKeys lt t)).Perm (h :: t)
-    exact (insertKey_perm lt h _).trans (List.Perm.cons h ih)
-
-theorem insertKey_sorted (lt : K → K → Bool)
-    (irrefl : ∀ a, lt a a = false)
-    (trans : ∀ a b c, lt a b = true → lt b c = true → lt a c = true)
-    (k : K) (l : List K) (hl : l.Pairwise (fun a b => lt b a = false)) :
-    (insertKey lt k l).Pairwise (fun a b => lt b a = false) := by
-  induction l with
-  | nil => simp [insertKey]
-  | cons h t ih =>
-    have hl' := List.pairwise_cons.mp hl
-    unfold insertKey
-    split
-    · next hkh =>
-      refine List.pairwise_cons.mpr ⟨?_, hl⟩
-      intro b hb
-      rcases List.mem_cons.mp hb with rfl | hb
-      · cases hbk : lt b k with
-        | false => rfl
-        | true => have := trans _ _ _ hkh hbk; rw [irrefl] at this; cases this
-      · cases hbk : lt b k with
-        | false => rfl
-        | true =>
-          have := trans _ _ _ hbk hkh
-          rw [hl'.1 b hb] at this; cases this
-    · next hkh =>
-      refine List.pairwise_cons.mpr ⟨?_, ih hl'.2⟩
-      intro b hb
-      rcases List.mem_cons.mp ((insertKey_perm lt k t).subset hb) with rfl | hb
-      · simpa using hkh
-      · exact hl'.1 b hb
-
-theorem sortKeys_sorted (lt : K → K → Bool)
-    (irrefl : ∀ a, lt a a = false)
-    (trans : ∀ a b c, lt a b = true → lt b c = true → lt a c = true)
-    (l : List K) : (sortKeys lt l).Pairwise (fun a b => lt b a = false) := by
-  induction l with
-  | nil => exact List.Pairwise.nil
-  | cons h t ih => exact insertKey_sorted lt irrefl trans h _ ih
-
 /-! ### the keys of a range -/
 
 theorem mem_insertKey (lt : K → K → Bool) (k x : K) (l : List K) :
@@ -1463,209 +1406,5 @@ theorem mem_listed_iff (c : Cfg K V) (s : St K V) (ks : List K) (p : K × Option
     exact ⟨hk, hd, rfl⟩
   · rintro ⟨hk, hd, hv⟩
     exact ⟨p.1, ⟨hk, hd⟩, by rw [← hv]⟩
-
-/-! ### the keys an iteration visits -/
-
-theorem nodup_eraseDups : ∀ (l : List K), l.eraseDups.Nodup
-  | [] => by simp
-  | a :: as => by
-    rw [List.eraseDups_cons, List.nodup_cons]
-    refine ⟨?_, nodup_eraseDups _⟩
-    intro h
-    rw [List.mem_eraseDups, List.mem_filter] at h
-    simp at h
-termination_by l => l.length
-decreasing_by
-  simp only [List.length_cons]
-  exact Nat.lt_succ_of_le (List.length_filter_le _ _)
-
-theorem iterKeys_eq (c : Cfg K V) (s : St K V) (lo hi : Option K) (asc : Bool) :
-    s.iterKeys c lo hi asc = dir asc (sortKeys c.lt (s.allKeys.eraseDups.filter (inRange c lo hi))) :=
-  rfl
-
-theorem mem_dir (asc : Bool) (ks : List K) (k : K) : k ∈ dir asc ks ↔ k ∈ ks := by
-  cases asc <;> simp [dir]
-
-theorem nodup_dir (asc : Bool) (ks : List K) : (dir asc ks).Nodup ↔ ks.Nodup := by
-  cases asc
-  · exact (List.reverse_perm ks).nodup_iff
-  · exact Iff.rfl
-
-theorem filter_dir (asc : Bool) (p : K → Bool) (ks : List K) :
-    (dir asc ks).filter p = dir asc (ks.filter p) := by
-  cases asc <;> simp [dir, List.filter_reverse]
-
-/-- the keys iteration visits: exactly the keys some layer holds that lie in `[lo, hi)` -/
-theorem mem_iterKeys (c : Cfg K V) (s : St K V) (lo hi : Option K) (asc : Bool) (k : K) :
-    k ∈ s.iterKeys c lo hi asc ↔ k ∈ s.allKeys ∧ inRange c lo hi k = true := by
-  rw [iterKeys_eq, mem_dir, mem_sortKeys, List.mem_filter, List.mem_eraseDups]
-
-theorem nodup_iterKeys (c : Cfg K V) (s : St K V) (lo hi : Option K) (asc : Bool) :
-    (s.iterKeys c lo hi asc).Nodup := by
-  rw [iterKeys_eq, nodup_dir, (sortKeys_perm c.lt _).nodup_iff]
-  exact List.Nodup.sublist List.filter_sublist (nodup_eraseDups _)
-
-theorem sortedDir_dir (lt : K → K → Bool) (asc : Bool) (ks : List K)
-    (h : ks.Pairwise (fun a b => lt b a = false)) : SortedDir lt asc (dir asc ks) := by
-  cases asc
-  · simp only [SortedDir, dir, Bool.false_eq_true, if_false]
-    rw [List.pairwise_reverse]
-    exact h
-  · simpa [SortedDir, dir] using h
-
-theorem sorted_iterKeys (c : Cfg K V) (ho : StrictTotal c.lt) (s : St K V) (lo hi : Option K)
-    (asc : Bool) : SortedDir c.lt asc (s.iterKeys c lo hi asc) := by
-  rw [iterKeys_eq]
-  exact sortedDir_dir c.lt asc _ (sortKeys_sorted c.lt ho.irrefl ho.trans _)
-
-theorem mem_allKeys (s : St K V) (k : K) :
-    k ∈ s.allKeys ↔ k ∈ akeys s.tree.working ∨ k ∈ akeys s.cache ∨
-      ∃ o, s.sess = some o ∧ k ∈ akeys o := by
-  unfold St.allKeys
-  cases s.sess with
-  | none => simp
-  | some o => simp
-
-/-- a key is visible to a reader iff some layer holds it and no overlay deletes it -/
-theorem visible_iff (c : Cfg K V) (s : St K V) (k : K) :
-    (view c s k).isSome = true ↔ k ∈ s.allKeys ∧ s.deleted c k = false := by
-  rw [mem_allKeys]
-  cases hs : s.sess.bind (alookup k) with
-  | some v =>
-    have hmem : ∃ o, s.sess = some o ∧ k ∈ akeys o := by
-      cases ho : s.sess with
-      | none => rw [ho] at hs; cases hs
-      | some o =>
-        rw [ho] at hs
-        exact ⟨o, rfl, (mem_akeys_iff_alookup o k).mpr (by simpa using congrArg Option.isSome hs)⟩
-    by_cases hv : v = c.tomb <;> simp [view, St.deleted, dec, hs, hv, hmem]
-  | none =>
-    have hns : ¬ ∃ o, s.sess = some o ∧ k ∈ akeys o := by
-      rintro ⟨o, ho, hk⟩
-      rw [ho] at hs
-      have := (mem_akeys_iff_alookup o k).mp hk
-      simp only [Option.bind_some] at hs
-      rw [hs] at this; cases this
-    cases hc : alookup k s.cache with
-    | some v =>
-      have hmem : k ∈ akeys s.cache := (mem_akeys_iff_alookup _ k).mpr (by rw [hc]; rfl)
-      by_cases hv : v = c.tomb <;> simp [view, blockView, St.deleted, dec, hs, hc, hv, hmem]
-    | none =>
-      have hnc : k ∉ akeys s.cache := fun h => by
-        have := (mem_akeys_iff_alookup _ k).mp h
-        rw [hc] at this; cases this
-      simp only [view, blockView, St.deleted, hs, hc, Tree.get, hns, hnc, or_false, and_true]
-      exact (mem_akeys_iff_alookup _ k).symm
-
-theorem not_deleted_eq_visible (c : Cfg K V) (s : St K V) (lo hi : Option K) (asc : Bool) (k : K)
-    (hk : k ∈ s.iterKeys c lo hi asc) : (!s.deleted c k) = (view c s k).isSome := by
-  have hall := ((mem_iterKeys c s lo hi asc k).mp hk).1
-  have h := visible_iff c s k
-  cases hd : s.deleted c k with
-  | true =>
-    cases hv : (view c s k).isSome with
-    | false => rfl
-    | true => rw [hd] at h; exact absurd (h.mp hv).2 (by simp)
-  | false =>
-    rw [hd] at h
-    rw [h.mpr ⟨hall, rfl⟩]; rfl
-
-theorem listed_iterKeys (c : Cfg K V) (s : St K V) (lo hi : Option K) (asc : Bool) :
-    listed c s (s.iterKeys c lo hi asc) =
-      (visKeys c s lo hi asc).map (fun k => (k, view c s k)) := by
-  unfold listed visKeys
-  rw [List.filter_congr (fun k hk => not_deleted_eq_visible c s lo hi asc k hk)]
-
-theorem map_fst_pairs (f : K → Option V) (ks : List K) :
-    (ks.map (fun k => (k, f k))).map Prod.fst = ks := by
-  induction ks with
-  | nil => rfl
-  | cons a t ih => simp [ih]
-
-theorem mem_visKeys (c : Cfg K V) (s : St K V) (lo hi : Option K) (asc : Bool) (k : K) :
-    k ∈ visKeys c s lo hi asc ↔ inRange c lo hi k = true ∧ (view c s k).isSome = true := by
-  unfold visKeys
-  rw [List.mem_filter, mem_iterKeys]
-  constructor
-  · rintro ⟨⟨_, hr⟩, hv⟩; exact ⟨hr, hv⟩
-  · rintro ⟨hr, hv⟩; exact ⟨⟨((visible_iff c s k).mp hv).1, hr⟩, hv⟩
-
-theorem nodup_visKeys (c : Cfg K V) (s : St K V) (lo hi : Option K) (asc : Bool) :
-    (visKeys c s lo hi asc).Nodup :=
-  List.Nodup.sublist List.filter_sublist (nodup_iterKeys c s lo hi asc)
-
-theorem sorted_visKeys (c : Cfg K V) (ho : StrictTotal c.lt) (s : St K V) (lo hi : Option K)
-    (asc : Bool) : SortedDir c.lt asc (visKeys c s lo hi asc) :=
-  List.Pairwise.filter _ (sorted_iterKeys c ho s lo hi asc)
-
-/-- two sorted lists with the same elements are equal -/
-theorem sorted_perm_eq (lt : K → K → Bool) (ho : StrictTotal lt) (l₁ l₂ : List K)
-    (h1 : l₁.Pairwise (fun a b => lt b a = false)) (h2 : l₂.Pairwise (fun a b => lt b a = false))
-    (hp : l₁.Perm l₂) : l₁ = l₂ := by
-  refine List.Perm.eq_of_pairwise (le := fun a b => lt b a = false) ?_ h1 h2 hp
-  intro a b _ _ hab hba
-  apply Classical.byContradiction
-  intro hne
-  rcases ho.total a b hne with h | h
-  · rw [h] at hba; cases hba
-  · rw [h] at hab; cases hab
-
-/-- the visible keys are THE sorted duplicate-free list of the keys in range a reader can see -/
-theorem visKeys_unique (c : Cfg K V) (ho : StrictTotal c.lt) (s : St K V) (lo hi : Option K)
-    (asc : Bool) (L : List K) (hn : L.Nodup)
-    (hL : ∀ k, k ∈ L ↔ inRange c lo hi k = true ∧ (view c s k).isSome = true) :
-    visKeys c s lo hi asc = dir asc (sortKeys c.lt L) := by
-  unfold visKeys
-  rw [iterKeys_eq, filter_dir]
-  congr 1
-  refine sorted_perm_eq c.lt ho _ _
-    (List.Pairwise.filter _ (sortKeys_sorted c.lt ho.irrefl ho.trans _))
-    (sortKeys_sorted c.lt ho.irrefl ho.trans _) ?_
-  refine ((sortKeys_perm c.lt _).filter _).trans (List.Perm.trans ?_ (sortKeys_perm c.lt L).symm)
-  rw [List.perm_ext_iff_of_nodup
-    (List.Nodup.sublist List.filter_sublist
-      (List.Nodup.sublist List.filter_sublist (nodup_eraseDups _))) hn]
-  intro k
-  rw [hL, List.mem_filter, List.mem_filter, List.mem_eraseDups]
-  constructor
-  · rintro ⟨⟨_, hr⟩, hv⟩; exact ⟨hr, hv⟩
-  · rintro ⟨hr, hv⟩; exact ⟨⟨((visible_iff c s k).mp hv).1, hr⟩, hv⟩
-
-/-- with gas for all the reads (an unmetered state needs none) an iteration lists exactly the
-    visible keys of the range, each with the value of the view -/
-theorem iter_enough_gas_visible (c : Cfg K V) (s : St K V) (lo hi : Option K) (asc : Bool)
-    (h : s.metered = true → s.gas.consumed + iterCost c s (s.iterKeys c lo hi asc) ≤ s.gas.limit) :
-    s.iter c lo hi asc =
-      (s.addGas (iterCost c s (s.iterKeys c lo hi asc)),
-       (visKeys c s lo hi asc).map (fun k => (k, view c s k))) := by
-  rw [iter_eq_foldl, iter_foldl_enough_gas c _ s [] h, listed_iterKeys]
-  simp
-
-/-- a listed pair belongs to a visible key -/
-theorem iter_listed_visible (c : Cfg K V) (s : St K V) (lo hi : Option K) (asc : Bool)
-    (p : K × Option V) (hp : p ∈ (s.iter c lo hi asc).2) :
-    p.2 = view c s p.1 ∧ p.1 ∈ visKeys c s lo hi asc := by
-  have h := (iter_sublist c s lo hi asc).subset hp
-  rw [listed_iterKeys] at h
-  obtain ⟨k, hk, rfl⟩ := List.mem_map.mp h
-  exact ⟨rfl, hk⟩
-
-/-- a visible key of the range is listed, unless its read is refused -/
-theorem iter_visible_listed (c : Cfg K V) (s : St K V) (lo hi : Option K) (asc : Bool) (k : K)
-    (hr : inRange c lo hi k = true) (hv : (view c s k).isSome = true) :
-    (k, view c s k) ∈ (s.iter c lo hi asc).2 ∨
-    (s.metered = true ∧ s.gas.limit ≤ (s.iter c lo hi asc).1.gas.consumed ∧
-      s.sess.bind (alookup k) = none) := by
-  by_cases hm : (k, view c s k) ∈ (s.iter c lo hi asc).2
-  · exact Or.inl hm
-  · have hvis := (visible_iff c s k).mp hv
-    exact Or.inr (iter_missing c s lo hi asc k
-      ((mem_iterKeys c s lo hi asc k).mpr ⟨hvis.1, hr⟩) hvis.2 hm)
-
-theorem inRange_iff (c : Cfg K V) (lo hi : Option K) (k : K) :
-    inRange c lo hi k = true ↔
-      (∀ l, lo = some l → c.lt k l = false) ∧ (∀ h, hi = some h → c.lt k h = true) := by
-  unfold inRange
-  cases lo <;> cases hi <;> simp
 
 end OLP.KV
